@@ -234,7 +234,15 @@ class PathEnum:
                             for i, a in enumerate(args):
                                 st['env'][(cc.id, i + 1)] = a
                     else:
-                        val = simplify(('call', nid, d.get('fn', '?'), args), d)
+                        # by-reference arguments that point at plain locals carry the pointee value along
+                        vargs = []
+                        for a in args:
+                            if a[0] == 'ref' and a[1][1][0] == 'local' and not a[1][2]:
+                                pv_ = self.load(st, a[1])
+                                if pv_[0] not in ('load0', 'undef'):
+                                    a = ('refto', pv_, a[1])
+                            vargs.append(a)
+                        val = simplify(('call', nid, d.get('fn', '?'), tuple(vargs)), d)
                         if d.get('trait') == 'core::cmp::PartialEq' and d.get('method') in ('eq', 'ne') and len(args) == 2:
                             pv = []
                             for a in args:
@@ -443,6 +451,8 @@ class Folder:
             return r
         if k in ('idcall', 'conv'):
             return self.ev(t[2])
+        if k == 'refto':
+            return self.ev(t[1])
         if k in ('sizeof', 'alignof'):
             ty = t[1]
             if k == 'alignof' and ('alignof:' + ty) in self.generic:
